@@ -319,6 +319,12 @@ pub fn write_replay(property: &str, signature: &str, run_seed: u64, body: Value)
         sig.truncate(80);
     }
     let path = format!("{}/{}-{}-{:016x}.json", replay_dir(), property, sig, run_seed);
+    // every witness records the seed of the check run it came from, so that the driver can re-run it
+    let mut body = body;
+    if let Some(o) = body.as_object_mut() {
+        o.entry("verif_seed").or_insert(json!(env_seed()));
+        o.entry("verif_tier").or_insert(json!(std::env::var("VERIF_TIER_EFFECTIVE").unwrap_or_else(|_| "quick".into())));
+    }
     let _ = std::fs::write(&path, serde_json::to_string_pretty(&body).unwrap());
     path
 }
